@@ -376,6 +376,10 @@ func (x *fnv) modelErrorsAs(s *State, args []Value, call *ast.CallExpr) ([]Value
 		found = c.Or(is, c.And(c.Ne(chain[i], c.Int(0)), found))
 	}
 	found = c.NameTerm("as_ok", found)
+	if _, isPtr := T.Underlying().(*types.Pointer); isPtr {
+		x.assumeNote("A-NONNIL-ERR: an error value never holds a typed-nil pointer (errors.As results are non-nil pointers)")
+		s.Assume(c.Implies(found, c.Ne(val.Term, c.Int(0))))
+	}
 	cur := x.h.LoadPtr(s, T, tptr.Term)
 	x.h.StorePtr(s, T, tptr.Term, x.h.iteValue(found, val, cur))
 	return []Value{{T: types.Typ[types.Bool], Term: found}}, true
